@@ -22,7 +22,10 @@ EXPLANATION = (
     "payload / list of nested payload, fix_pack_/fix_unpack_ hooks present or absent per field, constructor defaults, positional / "
     "keyword / omitted constructor arguments) the generated source text is parsed (never run) and evaluated by the same abstract "
     "interpreter, and the resulting pack list / constructor call / attribute state must equal the specification, and so must the "
-    "interpreted VariablePayload methods. vp_compile is evaluated end to end (two definitions with an equal layout and different "
+    "interpreted VariablePayload methods. to_pack_list (interpreted, generated, installed by vp_compile) is evaluated TWICE on one instance, every field "
+    "assigned a new opaque value in between (through a __setattr__ of the class when it defines one): the second pack list must be the specification for "
+    "the new values - a form that answers from state captured earlier (memo on the instance) emits other bytes than the other forms for the same field values. "
+    "vp_compile is evaluated end to end (two definitions with an equal layout and different "
     "hooks share one world, constructor defaults come from positional and keyword-only parameters; in part of the definitions the "
     "fix_pack_/fix_unpack_ hooks are inherited from a base class of the definition instead of standing in its own __dict__); "
     "convert_to_payload is evaluated for fresh, re-converted and derived dataclasses with ClassVar pseudo-fields, and for dataclasses with a "
@@ -1139,6 +1142,8 @@ class Interp:
                 return PyMethod(o, key)
             if key == "__mro__" and o.name in _TYPE_NAMES:
                 return (o, Builtin("object"))
+            if key == "__setattr__" and o.name == "object":
+                return Builtin("object.__setattr__")
             real = getattr(__import__("builtins"), o.name, None)
             if not isinstance(key, str) or real is None or hasattr(real, key):
                 raise Und(f"attribute {key!r} of the builtin {o.name} (not modelled)")
@@ -1186,6 +1191,10 @@ class Interp:
                 return self._descr(self.func_of(c.ci.methods[key]), inst if isinstance(inst, Obj) else None, start)
         if key in ("__init__", "__new__", "__init_subclass__"):
             return ObjInit("super")
+        if key == "__setattr__" and isinstance(inst, Obj):
+            return Partial(Builtin("object.__setattr__"), (inst,), ())
+        if isinstance(key, str) and key.startswith("__") and key.endswith("__") and hasattr(object, key):
+            raise Und(f"special attribute {key!r} of a super object (not modelled)")
         raise PyExc("AttributeError", f"super object has no attribute {key!r}")
 
     def func_params(self, f: Func, skip: int):
@@ -1218,8 +1227,16 @@ class Interp:
             raise PyExc("AttributeError", key)
         raise Und(f"function attribute {key!r}")
 
-    def setattr_(self, o, name, value) -> None:
+    def setattr_(self, o, name, value, raw: bool = False) -> None:
         key = self.akey(name)
+        if isinstance(o, Obj) and o.cls is not None and not raw:
+            # `obj.name = value` is type(obj).__setattr__(obj, name, value): a class of the evaluated code that defines it is followed
+            hook = self.class_member(o.cls, "__setattr__")
+            if hook is not MISSING:
+                if not isinstance(hook, Func):
+                    raise Und(f"__setattr__ of {o.cls!r} is {hook!r} (not modelled)")
+                self.call(hook, [o, name, value])
+                return
         if isinstance(o, (Obj, ClsObj)):
             o.attrs[key] = value
             self.w.events.append(("set", o, key, value))
@@ -1725,6 +1742,11 @@ class Interp:
             return self.getattr_(a[0], a[1], a[2] if len(a) > 2 else MISSING)
         if name == "setattr":
             self.setattr_(a[0], a[1], a[2])
+            return None
+        if name == "object.__setattr__":
+            if len(a) != 3 or kw:
+                raise Und("object.__setattr__ with other arguments")
+            self.setattr_(a[0], a[1], a[2], raw=True)
             return None
         if name == "delattr":
             key = self.akey(a[1])
@@ -3311,10 +3333,11 @@ def spec_fmt(d: Defn, sc: Scenario, k: int):
     return "bits" if kind == "b" else Sym("fmt", k, "str") if kind == "s" else "payload-list" if kind == "l" else "payload"
 
 
-def spec_pack(d: Defn, sc: Scenario) -> list:
+def spec_pack(d: Defn, sc: Scenario, value=None) -> list:
+    value = value or (lambda i: Sym("field", i))
     out = []
     for k, grp in enumerate(d.groups):
-        vals = [App(Sym("hook", ("fix_pack_", i, "inst"), "callable"), (Sym("field", i),)) if i in d.pack else Sym("field", i) for i in grp]
+        vals = [App(Sym("hook", ("fix_pack_", i, "inst"), "callable"), (value(i),)) if i in d.pack else value(i) for i in grp]
         out.append((spec_fmt(d, sc, k), *vals))
     return out
 
@@ -3671,17 +3694,43 @@ def rule_init_template(ctx: Ctx) -> None:
               f"parameter: for {bad[0].describe()}: {bad[1]}" if bad else "")
 
 
-def _pack_disagreement(sc: Scenario, d: Defn, fn_of):
+def _repack_disagreement(sc: Scenario, d: Defn, obj: Obj, fn_again, what: str = "to_pack_list"):
+    """The pack list is a function of the CURRENT field values: after a first to_pack_list() every field of the same instance is
+    assigned a new (opaque) value the way user code does (`payload.name = value`, through a __setattr__ of the class if it has one)
+    and to_pack_list() is called again; it must be the specification for the new values.  All three forms read the fields at pack
+    time (the generated to_pack_list is `self.<name>` per field), so a form that answers from state captured earlier (a memo on the
+    instance, values copied at construction) emits other bytes than the others for the same field values."""
+    if not d.n:
+        return None
+    new = lambda i: Sym("field", ("reassigned", i))  # noqa: E731
+    try:
+        for i in range(d.n):
+            sc.it.setattr_(obj, N(i), new(i))
+    except PyExc as e:
+        return f"assigning a field of the instance raises {e}"
+    try:
+        got = sc.it.call(fn_again(), [])
+    except PyExc as e:
+        return f"{what} called again after the fields were assigned new values raises {e}"
+    exp = spec_pack(d, sc, new)
+    if not (isinstance(got, list) and [_freeze(x) for x in got] == [_freeze(x) for x in exp]):
+        return (f"{what} called a second time, after every field of the instance was assigned a new value, returns {got!r}, expected {exp!r}: "
+                "the pack list does not follow the current field values")
+    return None
+
+
+def _pack_disagreement(sc: Scenario, d: Defn, fn_of, refetch=None):
     cls = sc.make_class(d)
     obj = sc.instance(cls, d)
     try:
-        got = sc.it.call(fn_of(cls, obj), [])
+        fn = fn_of(cls, obj)
+        got = sc.it.call(fn, [])
     except PyExc as e:
         return f"to_pack_list raises {e}"
     exp = spec_pack(d, sc)
     if not (isinstance(got, list) and [_freeze(x) for x in got] == [_freeze(x) for x in exp]):
         return f"to_pack_list returns {got!r}, expected {exp!r}"
-    return None
+    return _repack_disagreement(sc, d, obj, (lambda: refetch(cls, obj)) if refetch is not None else (lambda: fn))
 
 
 def rule_to_pack_template(ctx: Ctx) -> None:
@@ -3697,9 +3746,11 @@ def rule_to_pack_template(ctx: Ctx) -> None:
         code = sc.it.call(sc.it.func_of(direct), [cls, cls.attrs["format_list"], cls.attrs["names"]])
         return Bound(gen_function(sc, code, "to_pack_list", fi.module), obj)
 
+    again = (lambda cls, obj: sc.it.getattr_(obj, "to_pack_list")) if direct is None else None
+
     def first_bad(defs):
         for d in defs:
-            msg = decided(fi.where, lambda d=d: forked(sc, lambda: _pack_disagreement(sc, d, compiled)), sc.w)
+            msg = decided(fi.where, lambda d=d: forked(sc, lambda: _pack_disagreement(sc, d, compiled, again)), sc.w)
             if msg:
                 return d, msg
         return None
@@ -3778,13 +3829,13 @@ def rule_interpreter(ctx: Ctx) -> None:
 
     tp = method("to_pack_list")
     interp_pack = lambda cls, obj: sc.it.getattr_(obj, "to_pack_list")  # noqa: E731
-    bad = first_bad(tp.where, da, lambda d: _pack_disagreement(sc, d, interp_pack))
+    bad = first_bad(tp.where, da, lambda d: _pack_disagreement(sc, d, interp_pack, interp_pack))
     ctx.check(bad is None, "interpreter-agrees", tp, tp.node,
               "interpreter emits (format, *fields) per format, 8 names per 'bits' and 1 otherwise with a running name index, fix_pack_<name> applied to "
               f"the field's raw value when defined ({len(da)} abstract definitions)",
               f"the interpreter's to_pack_list / _fix_pack differs from the definition: for {bad[0].describe()}: {bad[1]}" if bad else "")
     tf = method("_to_packlist_fmt", tp)      # private: when it is gone (inlined / renamed) the same evaluation is reported at to_pack_list
-    badb = first_bad(tf.where, db, lambda d: _pack_disagreement(sc, d, interp_pack)) if bad is None else None
+    badb = first_bad(tf.where, db, lambda d: _pack_disagreement(sc, d, interp_pack, interp_pack)) if bad is None else None
     ctx.check(badb is None, "interpreter-agrees", tf, tf.node, "_to_packlist_fmt: str -> itself, list -> payload-list, else payload",
               f"_to_packlist_fmt changed: for {badb[0].describe()}: {badb[1]}" if badb else "")
     for helper in ("_fix_pack",):
@@ -3864,6 +3915,9 @@ def rule_vp_compile(ctx: Ctx) -> None:
         exp = spec_pack(d, sc)
         if not (isinstance(got, list) and [_freeze(x) for x in got] == [_freeze(x) for x in exp]):
             return f"compiled to_pack_list returns {got!r}, expected {exp!r}"
+        msg = _repack_disagreement(sc, d, obj, lambda: sc.it.getattr_(obj, "to_pack_list"), "compiled to_pack_list")
+        if msg:
+            return msg
         try:
             got = sc.it.call(sc.it.getattr_(cls, "from_unpack_list"), wire(d))
         except PyExc as e:
@@ -4941,6 +4995,20 @@ WITNESSES = [
      "old": "    arg_list = \", \".join((f\"{name}={defaults.get(name)!r}\" if name in defaults else name) for name in names)\n",
      "new": "    unusual = [default for default in defaults.values() if not isinstance(default, (int, str, bytes, bool, type(None)))]\n"
             "    arg_list = \", \".join((f\"{name}={defaults.get(name)!r}\" if name in defaults else name) for name in names)\n"},
+    {"name": "interpreted pack list memoised on the instance (stale after a field is assigned)", "file": LP, "rule": "interpreter-agrees",
+     "edits": [{"file": LP, "old": "        out = []\n        index = 0\n        for i in range(len(self.format_list)):\n            args = []\n            for _ in range(8 if self.format_list[i]",
+                "new": "        out = self.__dict__.get(\"_pack_list\")\n        if out is not None:\n            return out\n"
+                       "        out = []\n        index = 0\n        for i in range(len(self.format_list)):\n            args = []\n            for _ in range(8 if self.format_list[i]"},
+               {"file": LP, "old": "            out.append((self._to_packlist_fmt(self.format_list[i]), *args))\n        return out\n",
+                "new": "            out.append((self._to_packlist_fmt(self.format_list[i]), *args))\n        self._pack_list = out\n        return out\n"}]},
+    {"name": "repaired twin: memoised pack list dropped by __setattr__ whenever an attribute is assigned", "kind": "twin", "rule": "interpreter-agrees",
+     "edits": [{"file": LP, "old": "        out = []\n        index = 0\n        for i in range(len(self.format_list)):\n            args = []\n            for _ in range(8 if self.format_list[i]",
+                "new": "        out = self.__dict__.get(\"_pack_list\")\n        if out is not None:\n            return out\n"
+                       "        out = []\n        index = 0\n        for i in range(len(self.format_list)):\n            args = []\n            for _ in range(8 if self.format_list[i]"},
+               {"file": LP, "old": "            out.append((self._to_packlist_fmt(self.format_list[i]), *args))\n        return out\n",
+                "new": "            out.append((self._to_packlist_fmt(self.format_list[i]), *args))\n        object.__setattr__(self, \"_pack_list\", out)\n        return out\n\n"
+                       "    def __setattr__(self, key: str, value: object) -> None:\n        self.__dict__.pop(\"_pack_list\", None)\n"
+                       "        super().__setattr__(key, value)\n"}]},
     {"name": "dataclass formats from sorted hints", "file": PD, "rule": "type-map",
      "old": "    dataclass_type.format_list = [type_map(type_hints[field.name]) for field in  # type: ignore[attr-defined]\n                                  dt_fields]",
      "new": "    dataclass_type.format_list = [type_map(type_hints[name]) for name in  # type: ignore[attr-defined]\n                                  sorted(type_hints)]"},
